@@ -1717,6 +1717,10 @@ def bool_outcome_edges(body, call_blocks):
                 break
             d = ds[0]
             if d[2] == 'call':
+                # `helper(..)?` returning Result<bool>: look through the Try::branch to the call that produced the Result
+                if call_matches(d[3], [TRY_BRANCH]) and d[3]['a'] and op_local(d[3]['a'][0]) is not None and d[0] not in cb:
+                    l = op_local(d[3]['a'][0])
+                    continue
                 hit = d[0] in cb
                 break
             r = d[3]['r']
@@ -1725,6 +1729,8 @@ def bool_outcome_edges(body, call_blocks):
                 l = op_local(r['a'][0])
             elif r['k'] in ('use',) and op_place(r['a'][0]) is not None and len(op_place(r['a'][0])) == 1:
                 l = op_place(r['a'][0])[0]
+            elif r['k'] in ('use',) and op_place(r['a'][0]) is not None and any(isinstance(e, str) and 'Continue' in e for e in op_place(r['a'][0])[1:]):
+                l = op_place(r['a'][0])[0]      # the Ok value of a `?`
             else:
                 break
         if not hit:
